@@ -1,4 +1,5 @@
 """C14 - SimpleLoop feeds exact time deltas and stops cleanly on Quit (E2)."""
+import fractions
 import itertools
 
 from mc import env  # noqa: F401
@@ -18,7 +19,7 @@ RULE = ('E2: every frame script with at most F frames in total spread over '
         'a propagated exception, a zero increment.')
 
 INCS = (0, 0.5, 1, 3)
-CONT = ('nothing', 'switch')
+CONT = ('nothing', 'switch', 'loop_switch')
 TERM = ('quit', 'quit_loop_world', 'quit_loop_default', 'runtime')
 
 
@@ -58,6 +59,11 @@ class SP(desper.Processor):
         if action == 'switch':
             other = envx.handles['B' if self.label == 'A' else 'A']
             raise desper.SwitchWorld(other)
+        if action == 'loop_switch':
+            # the public Loop.switch called directly: no exception, the
+            # frame goes on, the next iteration processes the other world
+            other = envx.handles['B' if self.label == 'A' else 'A']
+            envx.loop.switch(other)
         if action == 'runtime':
             envx.boom = Boom('frame failure')
             raise envx.boom
@@ -97,7 +103,7 @@ class FixedHandle(desper.Handle):
 
 
 def run_case(case):
-    if case and isinstance(case[0], (int, float)):
+    if case and isinstance(case[0], (int, float, str)):
         base, starts = case         # (clock base, starts)
     else:
         base, starts = 10.0, case   # older replay files
@@ -108,7 +114,8 @@ def run_case(case):
     envx.boom = None
     envx.done = False
     envx.frame = None
-    envx.now = float(base)
+    exact = base == 'big'
+    envx.now = fractions.Fraction(2 ** 60) if exact else float(base)
     envx.script = []
     worlds = {}
     envx.handles = {}
@@ -129,7 +136,8 @@ def run_case(case):
         envx.frame = envx.script.pop(0)
         envx.frame_no += 1
         envx.done = False
-        envx.now += envx.frame[0]
+        envx.now += (fractions.Fraction(envx.frame[0]) if exact
+                     else envx.frame[0])
         envx.readings.append(envx.now)
         return envx.now
 
@@ -176,14 +184,14 @@ def run_case(case):
                     hits['reading_exactly_zero'] = 1
                 if inc == 0 and fi > 0:
                     hits['zero_increment'] = 1
-                last = 2 if action == 'nothing' else pos
+                last = 2 if action in ('nothing', 'loop_switch') else pos
                 for p in range(last + 1):
                     want.append((first_frame + fi, current, p, dt, True))
                 if action in ('quit_loop_world', 'quit_loop_default'):
                     want_quits.append((first_frame + fi, current))
-                if action == 'switch':
+                if action in ('switch', 'loop_switch'):
                     current = 'B' if current == 'A' else 'A'
-                    hits['switch'] = 1
+                    hits[action] = 1
             got = envx.log
             if [r[:3] for r in got] != [r[:3] for r in want]:
                 raise Violation(
@@ -246,6 +254,7 @@ def frame_menu(terminating):
             out.append((inc, 0, 'nothing'))
             for pos in range(3):
                 out.append((inc, pos, 'switch'))
+            out.append((inc, 1, 'loop_switch'))
     return out
 
 
@@ -267,7 +276,9 @@ def compositions(total, max_parts):
     return out
 
 
-BASES = (10.0, 0.0, -1.0)       # readings that hit or cross zero matter
+# readings that hit or cross zero matter; 'big' = exact Fraction readings
+# around 2**60 that binary floats cannot represent
+BASES = (10.0, 0.0, -1.0, 'big')
 
 
 def cases(tier):
@@ -287,13 +298,15 @@ def run(tier, rep):
     rep.rule = RULE
     rep.assumptions += [
         'clock readings are dyadic rationals (exact floats) starting at 10.0, '
-        '0.0 or -1.0, so that a reading can be exactly zero or negative',
+        '0.0 or -1.0, so that a reading can be exactly zero or negative, or '
+        'exact Fractions around 2**60 that floats cannot represent',
         'loop.running after a non-Quit exception is not constrained by the '
         'statement and not checked',
         'which listeners of a frame that quit have still run is judged only '
         'through the processor ledger',
     ]
-    rep.require_hits(switch=1, restart=1, restart_after_exception=1,
+    rep.require_hits(switch=1, loop_switch=1, restart=1,
+                     restart_after_exception=1,
                      zero_increment=1, reading_exactly_zero=1)
     total, max_starts = (3, 2) if tier == 'quick' else (4, 3)
     kernel.enumerate_cases(run_case, cases(tier), rep, 'frame-scripts',
